@@ -253,6 +253,16 @@ def obligations(tier, rng):
                         continue
                     out.append(ob('C09', 'dt', 'dt/%s/%s/alias-of-used/p=%s/q=%s/out=p' % (mode, style, text(d1), text(d2)), defs=[['p', d1], ['q', d2]], main=P, N=N,
                                   mode=mode, style=style))
+    # a sub-specification whose whole body is a CONSTANT, referenced several times, also below a unary minus / abs
+    LIM = ('var', 'lim')
+    for body_ in (('const', 5.0), ('neg', ('const', 2.0)), ('add', ('const', 2.0), ('const', 3.0))):
+        for m in [('and', ('leq', X, LIM), ('geq', X, ('neg', LIM))), ('geq', ('sub', X, ('neg', LIM)), ('neg', ('neg', LIM))), ('or', ('leq', ('abs', X), LIM), ('once', ('geq', Y, ('neg', LIM)))),
+                  ('and', ('geq', ('neg', LIM), X), ('leq', ('neg', LIM), Y))]:
+            for mode in ('offline', 'online'):
+                for style in ('sub', 'multi'):
+                    if quick and style == 'sub' and body_[0] != 'const':
+                        continue
+                    out.append(ob('C09', 'dt', 'dt/%s/%s/constant-subspec/lim=%s/out=%s' % (mode, style, text(body_), text(m)), defs=[['lim', body_]], main=m, N=N, mode=mode, style=style))
     # constants as operands and as bounds
     const_cases = [
         ('out = (x) >= (c)', [['c', 'float', '1.5']], 'out = (x) >= (1.5)', ('geq', X, C15)),
